@@ -1,4 +1,4 @@
-import BiotiteModel.Proofs.C07Bonds
+import BiotiteModel.Proofs.C07Cryst
 import BiotiteModel.Gen.C07
 /-!
 # C07 — PDB files round-trip structures and never emit shifted columns: property theorems
@@ -389,6 +389,36 @@ example :
         ([(0, 1)].filter (carriable [a, a]))).map (ljust 80)) = some (.ok [(0, 1)]) := by decide
 
 
+/-! ## CRYST1 -/
+
+/-- **CRYST1 round trip.**  The box check accepts exactly the cells whose six values fit their columns after
+rounding (lengths ≤ 99999.999, 9 columns; angles 7 columns); a written CRYST1 record is 80 characters, has
+a, b, c, alpha, beta, gamma in the standard columns 7-15, 16-24, 25-33, 34-40, 41-47, 48-54, and the reader
+(applied to the record or to any file that starts with it) returns the six values rounded to 10⁻³ Å / 10⁻²
+degrees, i.e. within half a unit of the last decimal (`C07_round_error`).  A cell that does not fit is
+refused before anything is written. -/
+theorem C07_cryst1_roundtrip (u : Cell) :
+    (checkCell u = true ↔ CellStrong u) ∧
+    (checkCell u = true →
+      (cryst1Line u).length = 80 ∧ slice 6 15 (cryst1Line u) = rjust 9 (fmtFixed 3 u.a) ∧
+      slice 15 24 (cryst1Line u) = rjust 9 (fmtFixed 3 u.b) ∧ slice 24 33 (cryst1Line u) = rjust 9 (fmtFixed 3 u.c) ∧
+      slice 33 40 (cryst1Line u) = rjust 7 (fmtFixed 2 u.alpha) ∧ slice 40 47 (cryst1Line u) = rjust 7 (fmtFixed 2 u.beta) ∧
+      slice 47 54 (cryst1Line u) = rjust 7 (fmtFixed 2 u.gamma) ∧ slice 54 80 (cryst1Line u) = cryst1Tail ∧
+      parseCryst1 (cryst1Line u) = some (some (expectedCell u)) ∧
+      ∀ rest, readCell (cryst1Line u :: rest) = some (some (expectedCell u))) ∧
+    (checkCell u = false → ∀ fl s, writePdbBox fl (some u) s = .error .badStructure) := by
+  refine ⟨checkCell_iff u, fun h => ?_, fun h fl s => by simp [writePdbBox, h]⟩
+  obtain ⟨a, b, c, d, e, f, g, t⟩ := cryst1_layout u h
+  exact ⟨a, b, c, d, e, f, g, t, parseCryst1_line u h, readCell_written u h⟩
+
+/-- a = 12345.625 (all nine columns), b = float32(99999.99) = 99999.9921875, c = 2⁻¹⁰, β = 2⁻⁷ -/
+example : cryst1Line { a := ⟨false, 98765, 3⟩, b := ⟨false, 12799999, 7⟩, c := ⟨false, 1, 10⟩,
+                       alpha := ⟨false, 90, 0⟩, beta := ⟨false, 1, 7⟩, gamma := ⟨false, 3071, 8⟩ } =
+    "CRYST112345.62599999.992    0.001  90.00   0.01  12.00 P 1           1          ".toList := by decide
+/-- 99999.9996 (float32 100000.0) is refused -/
+example : checkCell { a := ⟨false, 100000, 0⟩, b := ⟨false, 1, 0⟩, c := ⟨false, 1, 0⟩,
+                      alpha := ⟨false, 90, 0⟩, beta := ⟨false, 90, 0⟩, gamma := ⟨false, 90, 0⟩ } = false := by decide
+
 /-! ## obligations on the tables regenerated from `file.py` / `hybrid36.pyx` (`Gen/C07.lean`) -/
 section Gen
 open BiotiteModel.Gen.C07
@@ -435,6 +465,23 @@ theorem C07_gen_check :
     Gen.C07.pdbMaxAtoms = 10 ^ 5 - 1 ∧ Gen.C07.pdbMaxResidues = 10 ^ 4 - 1 ∧
     Gen.C07.pdbMaxAtoms = C07.pdbMaxAtoms ∧ Gen.C07.pdbMaxResidues = C07.pdbMaxResidues ∧
     h36AtomWidth = 5 ∧ h36ResWidth = 4 ∧ modelLine = [("lit", "lit", 10), ("model_num", "rjust", 4)] := by decide
+
+/-- CRYST1: the reader slices are exactly the writer's fields (9.3 / 7.2 at the standard columns 7-15, 16-24,
+25-33, 34-40, 41-47, 48-54, 0-based half-open here), the record is 80 characters, the trailing literal carries
+space group `P 1` and Z = 1 where `get_space_group` reads them, and the box check uses the writer's formats -/
+theorem C07_gen_cryst1 :
+    let o := offsets 0 0 Gen.C07.cryst1Line
+    colOf "a" o = colOf "_a" cryst1Slices ∧ colOf "b" o = colOf "_b" cryst1Slices ∧ colOf "c" o = colOf "_c" cryst1Slices ∧
+    colOf "alpha" o = colOf "_alpha" cryst1Slices ∧ colOf "beta" o = colOf "_beta" cryst1Slices ∧
+    colOf "gamma" o = colOf "_gamma" cryst1Slices ∧
+    cryst1Slices = [("_a", 6, 15), ("_b", 15, 24), ("_c", 24, 33), ("_alpha", 33, 40), ("_beta", 40, 47), ("_gamma", 47, 54),
+                    ("_space", 55, 66), ("_z", 66, 70)] ∧
+    (o.map (·.2.2)).getLast? = some 80 ∧ cryst1Decimals = [3, 3, 3, 2, 2, 2] ∧
+    Gen.C07.cryst1Line.all (fun f => f.2.1 != "none" && f.2.1 != "ljust") = true ∧
+    Gen.C07.cryst1Tail.toList = C07.cryst1Tail ∧
+    slice (55 - 54) (66 - 54) Gen.C07.cryst1Tail.toList = "P 1        ".toList ∧
+    slice (66 - 54) (70 - 54) Gen.C07.cryst1Tail.toList = "   1".toList ∧
+    cryst1Check = [((">", 9, 3), 9), ((">", 7, 2), 7)] := by decide
 
 /-- hybrid36.pyx character constants: digits and the two letter ranges are contiguous and disjoint -/
 theorem C07_gen_ascii :
